@@ -4,3 +4,4 @@ import MinterModel.Parse
 import MinterModel.Ledger
 import MinterModel.Kernels
 import MinterModel.Tx
+import MinterModel.Moves
